@@ -190,6 +190,10 @@ def apply_damage(data, dmg):
         b = bytearray(data)
         b[dmg['off']:dmg['off'] + dmg['len']] = bytes(min(dmg['len'], max(len(b) - dmg['off'], 0)))
         return bytes(b)
+    if k == 'subst':          # replace the first occurrence of a byte string by another of the same length (a still-readable variant)
+        old, new = bytes.fromhex(dmg['find']), bytes.fromhex(dmg['repl'])
+        i = data.find(old)
+        return data if i < 0 else data[:i] + new + data[i + len(old):]
     if k == 'foreign':
         return foreign_bytes(dmg['what'], dmg['seed'], dmg['size'])
     if k == 'other':          # a valid file of another format
@@ -248,6 +252,13 @@ def gen_recipe(rng, fmt, nfiles=None, f14=False, tag=''):
         # names sort by the two digits only when the first letter is equal: mix cases so that both orders get exercised
         name = stem + rng.choice(spec['exts'])
         files.append({'name': name, 'src': src, 'damage': gen_damage(rng, fmt, src) if pos in dam_pos else None})
+    und = [f for f in files if f['damage'] is None]
+    if len(und) >= 2 and len({f['src'] for f in und}) == len(und):
+        und[1]['src'] = und[0]['src']          # always at least two files of equal size (ties in the big-first walk)
+    recurse = rng.random() < 0.3
+    if recurse:
+        for f in files:
+            f['name'] = rng.choice(['', '', 'A/', 'B/', 'A/C/', 'b/']) + f['name']
     if f14:
         # two inputs whose names differ only in the extension: RP66V1 gives them one output path (finding F14);
         # the LIS and BIT naming rules keep the extension, so there the pair must stay apart
@@ -255,15 +266,167 @@ def gen_recipe(rng, fmt, nfiles=None, f14=False, tag=''):
         e = spec['exts'][0]
         files.append({'name': 'b' + e, 'src': a, 'damage': None})
         files.append({'name': 'b' + e.upper(), 'src': b, 'damage': None})
+    return {'fmt': fmt, 'files': files, 'opt': gen_opt(rng, fmt), 'tag': tag, 'recurse': recurse}
+
+
+# ---------------------------------------------------------------- special directories: prefix-related names, recursive trees
+
+# damages seen to make a conversion raise AFTER identification succeeded ("late" failures); only candidates — every run
+# screens them (and random ones) by converting the damaged file on its own and keeps those that really fail
+LATE_FAIL_SEEDS = {
+    'lis': [('LIS/data/DILLSON-1_WELL_LOGS_FILE-049.LIS', [[574, 0], [545, 2]]),
+            ('LIS/data/DILLSON-1_WELL_LOGS_FILE-049.LIS', [[4808, 4], [4046, 4]]),
+            ('LIS/data/DILLSON-1_WELL_LOGS_FILE-049.LIS', [[1565, 2], [2809, 4]]),
+            ('LIS/data/DILLSON-1_WELL_LOGS_FILE-013.LIS', [[536, 7]])],
+    'rp': [],
+    'bit': [('BIT/data/29_10-_3Z_dwl_DWL_WIRE_1644659.bit', [[198, 7], [74, 1]]),
+            ('BIT/data/29_10-_3Z_dwl_DWL_WIRE_1644659.bit', [[214, 7], [217, 1], [93, 2], [77, 0]]),
+            ('BIT/data/29_10-_3Z_dwl_DWL_WIRE_1644659.bit', [[178, 4], [290, 6], [79, 0], [193, 7]])],
+}
+VARIANT_TOKENS = {'rp': [b'Halliburton', b'AUSTRALIA', b'9262611', b'R3.2.0'], 'lis': [b'DDBHC', b'88/11/15'], 'bit': [b'SHELL EXPRO', b'MANSFIELD']}
+
+
+def gen_candidates(rng, fmt, want, count):
+    """(src, damage) candidates: want='fail' -> likely to raise late in the conversion; want='variant' -> likely still convertible"""
+    import re
+    spec = FMT[fmt]
+    out = []
+    if want == 'fail':
+        for src, bits in LATE_FAIL_SEEDS[fmt]:
+            out.append((src, {'kind': 'flip', 'bits': bits}))
+        while len(out) < count:
+            src = rng.choice(spec['valid'][::-1][:2])       # prefer the larger examples: the bad file then sorts last by size
+            n = len(_example(src))
+            lo, hi = {'lis': (400, 6000), 'bit': (0x40, 0x130), 'rp': (80, n)}[fmt]
+            x = rng.random()
+            if x < 0.7:
+                d = {'kind': 'flip', 'bits': [[rng.randrange(lo, min(hi, n)), rng.randrange(8)] for _ in range(rng.choice([1, 2, 4]))]}
+            elif x < 0.85:
+                d = {'kind': 'header', 'off': rng.randrange(lo, min(hi, n)), 'bytes': bytes(rng.getrandbits(8) for _ in range(rng.choice([1, 2, 4]))).hex()}
+            else:
+                d = {'kind': 'trunc', 'at': rng.randrange(max(n // 3, 100), n), 'where': 'deep'}
+            out.append((src, d))
+    else:
+        for src in spec['valid']:
+            data = _example(src)
+            for tok in VARIANT_TOKENS[fmt]:
+                if tok in data:
+                    new = tok[:-1] + bytes([tok[-1] ^ 1])
+                    out.append((src, {'kind': 'subst', 'find': tok.hex(), 'repl': new.hex()}))
+        while len(out) < count:
+            src = rng.choice(spec['valid'])
+            data = _example(src)
+            runs = [m for m in re.finditer(rb'[A-Za-z]{6,}', data) if m.start() > 100]
+            if runs and rng.random() < 0.5:
+                m = rng.choice(runs)
+                tok = m.group(0)[:12]
+                out.append((src, {'kind': 'subst', 'find': tok.hex(), 'repl': (tok[:-1] + (b'Q' if tok[-1:] != b'Q' else b'Z')).hex()}))
+            else:
+                n = len(data)
+                out.append((src, {'kind': 'flip', 'bits': [[rng.randrange(n // 2, n), rng.randrange(8)]]}))
+    return out[:max(count, len(out))]
+
+
+def screen(fmt, cands, opt, base):
+    """Convert every candidate on its own (fresh process each); returns [(src, damage, class, n_outputs)]."""
+    shutil.rmtree(base, ignore_errors=True)
+    din = os.path.join(base, 'in')
+    os.makedirs(din)
+    specs = []
+    for i, (src, d) in enumerate(cands):
+        nm = 'c%02d%s' % (i, FMT[fmt]['exts'][0])
+        with open(os.path.join(din, nm), 'wb') as fh:
+            fh.write(apply_damage(_example(src), d))
+        specs.append({'fmt': fmt, 'opt': opt, 'mode': 'single', 'file': os.path.join(din, nm), 'din': din,
+                      'fout': os.path.join(base, 'o%02d' % i, nm)})
+    res = run_children(specs, parallel=12)
+    out = []
+    for i, ((src, d), st) in enumerate(zip(cands, res)):
+        cls = classify(res_tuple(st[1][0])) if st[0] == 'ok' and st[1] else st[0]
+        out.append((src, d, cls, len(read_tree(os.path.join(base, 'o%02d' % i)))))
+    shutil.rmtree(base, ignore_errors=True)
+    return out
+
+
+def gen_opt(rng, fmt):
     opt = rng.choice([['slice', None, None, None], ['slice', 0, None, 4], ['slice', 2, 200, 3], ['sample', 16], ['sample', 64]])
     if fmt != 'rp' and opt == ['slice', None, None, None] and rng.random() < 0.7:
-        opt = ['sample', 48]              # keep the big LIS/BIT outputs small most of the time
-    return {'fmt': fmt, 'files': files, 'opt': opt, 'tag': tag}
+        opt = ['sample', 48]
+    return opt
+
+
+def gen_prefix_recipe(ctx, fmt, base, tag=''):
+    """Names that are prefixes of one another (`x.lis`, `x.lis_2`, `x.lis_0`, `x_0.lis`, `x`, `x_b`): the outputs of a
+    neighbour start with the output prefix of another file.  The prefix files are damaged so that their conversion
+    FAILS LATE (screened), i.e. after outputs of the neighbours may already exist."""
+    rng = ctx.rng
+    spec = FMT[fmt]
+    opt = gen_opt(rng, fmt)
+    scr = screen(fmt, gen_candidates(rng, fmt, 'fail', 14), opt, os.path.join(base, 'screen'))
+    fails = sorted([c for c in scr if c[2] == 'failed'], key=lambda c: -c[3])
+    ctx.count('late_fail_candidates', len(scr)); ctx.count('late_fail_found', len(fails))
+    e = spec['exts'][0]
+    R = rng.choice(['x', 'DILLSON-1', 'a', 'Run.1'])
+    if fmt == 'rp':     # the RP66V1 rule drops the extension: relate the stems (equal stems would be the F14 class)
+        family = [R + e, R + '_0' + e, R + '_0_' + e, R + '_b' + e, R + '_0_50' + e, R + '_0_0' + e]
+    else:
+        family = [R + e, R + e + '_2', R + e + '_0', R + '_0' + e, R, R + '_b', R + e + '_0.las', R + e + '_RUN2']
+    bad = {family[0]}
+    if fmt != 'rp' and rng.random() < 0.5:
+        bad.add(R)
+    if rng.random() < 0.3:
+        bad.add(rng.choice(family[1:]))
+    files = []
+    for nm in family:
+        if nm in bad and fails:
+            src, d, _c, _n = fails[rng.randrange(min(len(fails), 4))]
+            files.append({'name': nm, 'src': src, 'damage': d})
+        elif nm in bad:
+            src = rng.choice(spec['valid'])
+            files.append({'name': nm, 'src': src, 'damage': gen_damage(rng, fmt, src)})
+            ctx.count('prefix_dir_without_screened_failure')
+        else:
+            files.append({'name': nm, 'src': rng.choice(spec['valid']), 'damage': None})
+    for i in range(rng.randint(0, 3)):
+        src = rng.choice(spec['valid'])
+        files.append({'name': 'z%d-%s%s' % (i, ''.join(rng.choice('abc019') for _ in range(3)), rng.choice(spec['exts'])), 'src': src,
+                      'damage': gen_damage(rng, fmt, src) if rng.random() < 0.5 else None})
+    rng.shuffle(files)
+    return {'fmt': fmt, 'files': files, 'opt': opt, 'tag': tag, 'recurse': False, 'shape': 'prefix'}
+
+
+def gen_recursive_recipe(ctx, fmt, base, tag=''):
+    """A tree (`recurse=True`) holding files of the SAME NAME with different content in different sub-directories:
+    different examples, still-convertible variants (screened), and damaged ones."""
+    rng = ctx.rng
+    spec = FMT[fmt]
+    opt = gen_opt(rng, fmt)
+    scr = screen(fmt, gen_candidates(rng, fmt, 'variant', 10), opt, os.path.join(base, 'screen'))
+    variants = [c for c in scr if c[2] == 'ok']
+    ctx.count('variant_candidates', len(scr)); ctx.count('variants_found', len(variants))
+    e = rng.choice(spec['exts'][:2])
+    dirs = ['', 'RUN_1/', 'RUN_2/', 'RUN_2/SUB/', 'run_1/']
+    rng.shuffle(dirs)
+    contents = [(s_, None) for s_ in spec['valid']] + [(c[0], c[1]) for c in variants[:3]]
+    rng.shuffle(contents)
+    files = []
+    for i, d in enumerate(dirs[:rng.randint(3, 5)]):
+        src, dmg = contents[i % len(contents)]
+        files.append({'name': d + 'MAIN' + e, 'src': src, 'damage': dmg, 'variant': dmg is not None})
+    for d in rng.sample(dirs, 2):                      # a second shared name, one copy damaged
+        src = rng.choice(spec['valid'])
+        files.append({'name': d + 'AUX' + e, 'src': src, 'damage': None if len([f for f in files if f['name'].endswith('AUX' + e)]) == 0 else gen_damage(rng, fmt, src)})
+    for i in range(rng.randint(1, 5)):
+        src = rng.choice(spec['valid'])
+        files.append({'name': rng.choice(dirs) + 'f%d-%s%s' % (i, ''.join(rng.choice('abc019') for _ in range(3)), rng.choice(spec['exts'])),
+                      'src': src, 'damage': gen_damage(rng, fmt, src) if rng.random() < 0.5 else None})
+    return {'fmt': fmt, 'files': files, 'opt': opt, 'tag': tag, 'recurse': True, 'shape': 'recursive'}
 
 
 def build_dir(recipe, din):
     os.makedirs(din, exist_ok=True)
     for f in recipe['files']:
+        os.makedirs(os.path.dirname(os.path.join(din, f['name'])), exist_ok=True)
         with open(os.path.join(din, f['name']), 'wb') as fh:
             fh.write(apply_damage(_example(f['src']), f['damage']))
 
@@ -275,7 +438,7 @@ _LOG = {'fd': None, 'fn': None}
 
 def _logged_conv(path_in, array_reduction, path_out, frame_slice, channels, field_width, float_format):
     """Module-level (picklable) wrapper used ONLY for the schedule-recording correspondence runs."""
-    name = os.path.basename(path_in)
+    name = path_in
     os.write(_LOG['fd'], ('S %d %d %s\n' % (time.monotonic_ns(), os.getpid(), name.encode().hex())).encode())
     try:
         return _LOG['fn'](path_in, array_reduction, path_out, frame_slice, channels, field_width, float_format)
@@ -290,12 +453,12 @@ def _frame_slice(opt):
     return Slice.Slice(opt[1], opt[2], opt[3])
 
 
-def _canon_results(ret):
+def _canon_results(ret, root):
+    """rows [key, path_input, type, size_in, size_out, las_count, exception, ignored], paths relative to the input root"""
     out = []
     for key, r in ret.items():
-        out.append([os.path.basename(key), os.path.dirname(key), os.path.basename(r.path_input), str(r.binary_file_type),
-                    int(r.size_input), int(r.size_output), int(r.las_count), bool(r.exception), bool(r.ignored),
-                    key == r.path_input])
+        out.append([os.path.relpath(key, root), os.path.relpath(r.path_input, root), str(r.binary_file_type),
+                    int(r.size_input), int(r.size_output), int(r.las_count), bool(r.exception), bool(r.ignored)])
     return out
 
 
@@ -321,14 +484,15 @@ def _child_main(conn, spec):
             _LOG['fd'] = os.open(spec['log'], os.O_WRONLY | os.O_APPEND | os.O_CREAT, 0o644)
             _LOG['fn'] = fn
             fn = _logged_conv
+        rec = bool(spec.get('recurse'))
         if mode == 'seq':
-            ret = WriteLAS.convert_dir_or_file_to_las(spec['din'], spec['dout'], False, 'first', fs, set(), 16, '.3f', fn)
+            ret = WriteLAS.convert_dir_or_file_to_las(spec['din'], spec['dout'], rec, 'first', fs, set(), 16, '.3f', fn)
         elif mode == 'single':
             ret = WriteLAS.convert_dir_or_file_to_las(spec['file'], spec['fout'], False, 'first', fs, set(), 16, '.3f', fn)
         else:
             ret = WriteLAS.convert_dir_or_file_to_las_multiprocessing(
-                spec['din'], spec['dout'], False, 'first', fs, set(), 16, '.3f', int(mode[1:]), fn)
-        conn.send(('ok', _canon_results(ret)))
+                spec['din'], spec['dout'], rec, 'first', fs, set(), 16, '.3f', int(mode[1:]), fn)
+        conn.send(('ok', _canon_results(ret, spec['din'])))
     except BaseException as e:           # noqa: anything that escapes the batch is the observation
         try:
             conn.send(('exc', '%s: %s' % (type(e).__name__, str(e)[:300])))
@@ -448,12 +612,13 @@ def run_directory(recipe, base, modes, log_mode=None):
     names = [f['name'] for f in recipe['files']]
     specs = []
     for i, nm in enumerate(names):
-        specs.append({'fmt': recipe['fmt'], 'opt': recipe['opt'], 'mode': 'single', 'file': os.path.join(din, nm),
+        specs.append({'fmt': recipe['fmt'], 'opt': recipe['opt'], 'mode': 'single', 'file': os.path.join(din, nm), 'din': din,
                       'fout': os.path.join(base, 'single', '%02d' % i, nm)})
     singles = run_children(specs, parallel=12)
     mspecs = []
     for m in modes:
-        s = {'fmt': recipe['fmt'], 'opt': recipe['opt'], 'mode': m, 'din': din, 'dout': os.path.join(base, 'out_' + m)}
+        s = {'fmt': recipe['fmt'], 'opt': recipe['opt'], 'mode': m, 'din': din, 'dout': os.path.join(base, 'out_' + m),
+             'recurse': bool(recipe.get('recurse'))}
         if log_mode and m == log_mode:
             s['log'] = os.path.join(base, 'sched_%s.log' % m)
         mspecs.append(s)
@@ -469,8 +634,8 @@ def run_directory(recipe, base, modes, log_mode=None):
 
 
 def res_tuple(row):
-    # name, type, size_in, size_out, las_count, exception, ignored   (no elapsed time)
-    return tuple(row[2:9])
+    # (relative input path, type, size_in, size_out, las_count, exception, ignored)   (no elapsed time)
+    return tuple(row[1:8])
 
 
 def classify(t):
@@ -484,7 +649,7 @@ def f14_groups(recipe, run):
     by = {}
     for nm in run['names']:
         st = run['single'].get(nm)
-        if st and st[0] == 'ok' and st[1] and st[1][0][3] == 'RP66V1':
+        if st and st[0] == 'ok' and st[1] and st[1][0][2] == 'RP66V1':
             by.setdefault(os.path.splitext(nm)[0], []).append(nm)
     return [sorted(v) for v in by.values() if len(v) > 1]
 
@@ -506,7 +671,7 @@ def evaluate(ctx, recipe, run, modes):
                           'converting %s on its own: %s %s (an exception/crash/timeout escaped single_*_to_las)' % (nm, st[0], st[1]), None))
             continue
         rows = st[1]
-        if len(rows) != 1 or rows[0][0] != nm or not rows[0][9]:
+        if len(rows) != 1 or rows[0][0] != nm or rows[0][1] != nm:
             fails.append((dict(base_case, mode='single', file=nm), 'file on its own gave results %r' % (rows,), None))
             continue
         single[nm] = res_tuple(rows[0])
@@ -532,7 +697,7 @@ def evaluate(ctx, recipe, run, modes):
             continue
         rows = st[1]
         got = {}
-        bad_rows = [r for r in rows if not r[9] or r[1] != run['din'] or r[0] != r[2]]
+        bad_rows = [r for r in rows if r[0] != r[1]]
         if bad_rows:
             fails.append((case, 'result keyed by a path that is not its input path: %r' % (bad_rows[:2],), None))
         for r in rows:
@@ -574,7 +739,7 @@ def evaluate(ctx, recipe, run, modes):
 
 
 def summary(recipe):
-    return {'fmt': recipe['fmt'], 'n': len(recipe['files']), 'opt': recipe['opt'],
+    return {'fmt': recipe['fmt'], 'shape': recipe.get('shape', 'random'), 'recurse': bool(recipe.get('recurse')), 'n': len(recipe['files']), 'opt': recipe['opt'],
             'damaged': [[i, f['name'], f['damage']['kind']] for i, f in enumerate(recipe['files']) if f['damage']]}
 
 
@@ -643,14 +808,14 @@ def corr_naming_real(ctx, fmt, base):
         nm = ''.join(rng.choice('abAB01._- ') for _ in range(rng.randint(1, 10)))
         sub = rng.choice(['', 'd', 'd.e/f_1'])
         outs.append(os.path.join(base, 'o%d' % i, sub, nm))
-    specs = [{'fmt': fmt, 'opt': ['sample', 8], 'mode': 'single', 'file': fin, 'fout': po} for po in outs]
+    specs = [{'fmt': fmt, 'opt': ['sample', 8], 'mode': 'single', 'file': fin, 'fout': po, 'din': din} for po in outs]
     res = run_children(specs, parallel=8)
     req = []
     meta = []
     for i, (po, st) in enumerate(zip(outs, res)):
         if st[0] != 'ok':
             continue
-        cnt = st[1][0][6]
+        cnt = st[1][0][5]
         root = os.path.join(base, 'o%d' % i)
         real = sorted(os.path.join(root, k) for k in read_tree(root))
         meta.append((po, cnt, real, len(req)))
@@ -694,6 +859,43 @@ def corr_walk(ctx, base):
         for (sz, nm), m in zip(sized, rep[2:]):
             t = pairs[nm]
             ctx.corr('dirwalk_pair', dict(case, name=nm), 'ok %s %s' % (hx(t.filePathIn), hx(t.filePathOut)), m)
+        shutil.rmtree(din, ignore_errors=True)
+
+
+def corr_walk_recursive(ctx, base):
+    """recursive dirWalk: the (input, output) pair of a file is a function of its full relative path (model: walkPath)."""
+    from TotalDepth.util import DirWalk
+    rng = ctx.rng
+    for d in range(ctx.n(12, 80)):
+        din = os.path.join(base, 'r%d' % d)
+        os.makedirs(din)
+        rels = set()
+        for _ in range(rng.randint(1, 8)):
+            comps = [''.join(rng.choice('abAB01._- ') for _ in range(rng.randint(1, 4))) for _ in range(rng.randint(1, 4))]
+            comps = [c for c in comps if c not in ('.', '..')] or ['f']
+            rels.add('/'.join(comps))
+        made = []
+        for rel in sorted(rels):
+            p = os.path.join(din, rel)
+            try:
+                os.makedirs(os.path.dirname(p), exist_ok=True)
+                if os.path.isdir(p):
+                    continue
+                with open(p, 'wb') as fh:
+                    fh.write(b'x' * rng.choice([0, 1, 2, 2, 5]))
+                made.append(rel)
+            except OSError:          # a component is already a file
+                continue
+        dout = rng.choice(['', 'out', 'out/', '/abs/out', 'o.d'])
+        for big in (False, True):
+            walked = list(DirWalk.dirWalk(din, dout, theFnMatch='', recursive=True, bigFirst=big))
+            req = ['walkpath %s %s %s' % (hx(din), hx(dout), ','.join(hx(c) for c in os.path.relpath(t.filePathIn, din).split('/'))) for t in walked]
+            rep = ctx.lean(req)
+            case = {'op': 'dirWalk_recursive', 'files': made, 'dir_out': dout, 'bigFirst': big}
+            ctx.corr('dirwalk_recursive_files', case, sorted(os.path.relpath(t.filePathIn, din) for t in walked), sorted(made))
+            for t, m in zip(walked, rep):
+                ctx.corr('dirwalk_recursive_pair', dict(case, file=os.path.relpath(t.filePathIn, din)),
+                         'ok %s %s' % (hx(t.filePathIn), hx(t.filePathOut)), m)
         shutil.rmtree(din, ignore_errors=True)
 
 
@@ -820,13 +1022,14 @@ def corr_real_schedule(ctx, recipe, run, mode):
     st = run['modes'][mode]
     if st[0] != 'ok' or not os.path.exists(logp):
         return
-    order = [os.path.basename(t.filePathIn) for t in DirWalk.dirWalk(run['din'], '', theFnMatch='', recursive=False, bigFirst=True)]
+    order = [os.path.relpath(t.filePathIn, run['din']) for t in
+             DirWalk.dirWalk(run['din'], '', theFnMatch='', recursive=bool(recipe.get('recurse')), bigFirst=True)]
     idx = {nm: i for i, nm in enumerate(order)}
     lines = []
     for ln in open(logp).read().split('\n'):
         if ln:
             kind, ns, pid, h = ln.split(' ')
-            lines.append((int(ns), 0 if kind == 'F' else 1, kind, bytes.fromhex(h).decode()))
+            lines.append((int(ns), 0 if kind == 'F' else 1, kind, os.path.relpath(bytes.fromhex(h).decode(), run['din'])))
     lines.sort()
     outs = {nm: sorted(run['single_tree'][nm]) for nm in order}
     evs = []
@@ -852,9 +1055,9 @@ def corr_real_schedule(ctx, recipe, run, mode):
     def owners(tr, get):
         return sorted((k, get(k)) for k in tr if len(union.get(k, [])) == 1)
     model = ['valid=' + parts.get('valid', '?'), sorted(unhx(k) for k in mtree), sorted((unhx(k), v) for k, v in mres.items()),
-             owners([unhx(k) for k in mtree], lambda k: unhx(mtree[hx(k)]))]
+             owners([unhx(k) for k in mtree], lambda k: os.path.basename(unhx(mtree[hx(k)])))]
     impl = ['valid=1', sorted(tree), sorted((nm, classify(t) + str(t[4])) for nm, t in rows.items()),
-            owners(tree, lambda k: tree[k][1] or union[k][0])]
+            owners(tree, lambda k: tree[k][1] or os.path.basename(union[k][0]))]
     ctx.corr('real_pool_schedule', {'op': 'real_schedule', 'recipe': recipe, 'mode': mode, 'events': enc_evs(evs)}, impl, model)
     ctx.count('real_schedule_events', len(evs))
     inflight = c = 0
@@ -868,8 +1071,12 @@ def corr_real_schedule(ctx, recipe, run, mode):
 # ---------------------------------------------------------------- run / replay
 
 def plan(ctx):
-    """(fmt, n directories) for the tier; the first RP66V1 directory carries the F14 pair."""
-    return [('rp', ctx.n(16, 60)), ('lis', ctx.n(10, 30)), ('bit', ctx.n(10, 30))]
+    """(fmt, shapes) for the tier: directory 0 carries the same-stem pair (F14 for RP66V1), then directories with
+    prefix-related names and late-failing files, recursive trees with same-named files, then random directories."""
+    out = []
+    for fmt, nr in (('rp', ctx.n(11, 48)), ('lis', ctx.n(6, 22)), ('bit', ctx.n(6, 22))):
+        out.append((fmt, ['f14'] + ['prefix'] * ctx.n(2, 6) + ['recursive'] * ctx.n(2, 6) + ['random'] * nr))
+    return out
 
 
 def record(ctx, recipe, run, modes, fails, single):
@@ -879,7 +1086,7 @@ def record(ctx, recipe, run, modes, fails, single):
     nvalid = len(names) - len(dam)
     for m in modes:
         if nvalid >= 2 and dam:
-            ctx.nontriv((recipe['fmt'], len(names), tuple(dam), kinds, m))
+            ctx.nontriv((recipe['fmt'], recipe.get('shape', 'random'), bool(recipe.get('recurse')), len(names), tuple(dam), kinds, m))
     seq_order = sorted(names)
     for f in recipe['files']:
         if f['damage']:
@@ -904,17 +1111,28 @@ def run(ctx):
         corr_naming(ctx)
         corr_sched(ctx)
         corr_walk(ctx, os.path.join(base, 'walk'))
+        corr_walk_recursive(ctx, os.path.join(base, 'walkr'))
         for fmt in ('lis', 'bit'):
             corr_naming_real(ctx, fmt, os.path.join(base, 'nm_' + fmt))
             shutil.rmtree(os.path.join(base, 'nm_' + fmt), ignore_errors=True)
     modes = modes_for(ctx)
     k = 0
-    for fmt, nd in plan(ctx):
-        for d in range(nd):
-            f14 = (d == 0)
-            nfiles = 4 if (d == 1) else (24 if d == 2 else None)
-            recipe = gen_recipe(ctx.rng, fmt, nfiles=nfiles, f14=f14, tag='%s%d' % (fmt, d))
+    for fmt, shapes in plan(ctx):
+        nrand = 0
+        for d, shape in enumerate(shapes):
             dbase = os.path.join(base, 'd%d' % k); k += 1
+            tag = '%s%d-%s' % (fmt, d, shape)
+            if shape == 'prefix':
+                recipe = gen_prefix_recipe(ctx, fmt, dbase, tag=tag)
+            elif shape == 'recursive':
+                recipe = gen_recursive_recipe(ctx, fmt, dbase, tag=tag)
+            else:
+                nfiles = None
+                if shape == 'random':
+                    nrand += 1
+                    nfiles = 4 if nrand == 1 else (24 if nrand == 2 else None)
+                recipe = gen_recipe(ctx.rng, fmt, nfiles=nfiles, f14=(shape == 'f14'), tag=tag)
+            ctx.count('directories_' + shape)
             log_mode = ctx.rng.choice([m for m in modes if m != 'seq']) if getattr(ctx, 'model_available', True) else None
             r = run_directory(recipe, dbase, modes, log_mode=log_mode)
             fails, single = evaluate(ctx, recipe, r, modes)
@@ -933,8 +1151,13 @@ def search(ctx):
     k = 0
     for fmt in ('rp', 'lis', 'bit', 'rp', 'lis', 'bit'):
         for d in range(6):
-            recipe = gen_recipe(ctx.rng, fmt, f14=(d == 0), tag='search-%s%d' % (fmt, d))
             dbase = os.path.join(base, 'd%d' % k); k += 1
+            if d == 1:
+                recipe = gen_prefix_recipe(ctx, fmt, dbase, tag='search')
+            elif d == 2:
+                recipe = gen_recursive_recipe(ctx, fmt, dbase, tag='search')
+            else:
+                recipe = gen_recipe(ctx.rng, fmt, f14=(d == 0), tag='search-%s%d' % (fmt, d))
             r = run_directory(recipe, dbase, modes)
             fails, single = evaluate(ctx, recipe, r, modes)
             record(ctx, recipe, r, modes, fails, single)
